@@ -153,13 +153,27 @@ def _dumpstruct(
     ci = 0
     out = [f"struct {structure.__class__.__name__}:"]
     foreground, background = None, None
+    bits_type, bits_remaining = None, 0
     for field in structure.__class__.__fields__:
         if getattr(field.type, "anonymous", False):
             continue
 
+        if field.bits:
+            # Bit fields have no size of their own: the field that opens a storage unit gets the bytes of the unit
+            field_type = field.type.type if issubclass(field.type, Enum) else field.type
+            if bits_remaining < field.bits or field_type != bits_type:
+                bits_type, bits_remaining = field_type, field_type.size * 8
+                size = field_type.size
+            else:
+                size = 0
+            bits_remaining -= field.bits
+        else:
+            bits_type, bits_remaining = None, 0
+            size = getattr(structure, "_sizes", {}).get(field._name, 0)
+
         if color:
             foreground, background = colors[ci % len(colors)]
-            palette.append((structure._sizes[field._name], background))
+            palette.append((size, background))
         ci += 1
 
         value = getattr(structure, field._name)
